@@ -52,7 +52,12 @@ inline std::string show(const cctz::PosixTimeZone& r) {
 }
 
 // classification for evidence: "accepted", "rejected"
-inline bool oracle(const std::string& spec, std::string* why, bool* accepted = nullptr) {
+inline bool oracle(const std::string& spec_in, std::string* why, bool* accepted = nullptr) {
+  // an exact-capacity heap copy: a read past the terminating NUL then leaves the allocation (visible to ASan)
+  std::string spec;
+  spec.reserve(std::max<size_t>(spec_in.size(), 16));
+  spec = spec_in;
+  if (spec.size() > 15) spec.shrink_to_fit();
   cctz::PosixTimeZone r1, r2;
   prefill(&r1, 0x11); prefill(&r2, 0xEE);
   const bool a1 = cctz::ParsePosixSpec(spec, &r1);
